@@ -491,7 +491,27 @@ func checkC02Layout(c *Check, p *Program) {
 				// copy(body.Data, data) after body.Data was (re)allocated when too short
 				room = false
 				instrsOf(un, func(y ssa.Instruction) {
-					if st, isSt := y.(*ssa.Store); isSt && fieldOfAddr(st.Addr) == f && check(st.Val) {
+					st, isSt := y.(*ssa.Store)
+					if !isSt || fieldOfAddr(st.Addr) != f || !check(st.Val) {
+						return
+					}
+					// ... and that happens whenever the old one is shorter than the input (or always)
+					lenOf := func(v ssa.Value, want func(ssa.Value) bool) bool {
+						lc, isL := stripAllConv(v).(*ssa.Call)
+						return isL && builtinName(lc) == "len" && want(lc.Common().Args[0])
+					}
+					isFld := func(v ssa.Value) bool { return loadedField(v) == f }
+					isIn := func(v ssa.Value) bool { return v == ssa.Value(in) }
+					shorter := anyFact(factsAt(st.Block()), func(fc Cmp) bool {
+						switch fc.Op {
+						case token.LSS, token.LEQ:
+							return lenOf(fc.X, isFld) && lenOf(fc.Y, isIn)
+						case token.GTR, token.GEQ:
+							return lenOf(fc.X, isIn) && lenOf(fc.Y, isFld)
+						}
+						return false
+					})
+					if shorter || st.Block() == un.Blocks[0] {
 						room = true
 					}
 				})
@@ -500,6 +520,38 @@ func checkC02Layout(c *Check, p *Program) {
 				okU, why = true, ""
 			} else {
 				why = "the destination of the copy may be shorter than the input: the tail of the payload is dropped"
+			}
+			// the copy lands in the decoded value: either it was made into the value's own field, or the filled
+			// slice is stored into the receiver on every path
+			if room && loadedField(dst) == nil {
+				isKeep := func(y ssa.Instruction) bool {
+					st, isSt := y.(*ssa.Store)
+					if !isSt || len(un.Params) == 0 {
+						return false
+					}
+					v := st.Val
+					for {
+						if ct, isCT := v.(*ssa.ChangeType); isCT {
+							v = ct.X
+							continue
+						}
+						break
+					}
+					return v == dst && (st.Addr == ssa.Value(un.Params[0]) || fieldOfAddr(st.Addr) != nil)
+				}
+				mn, _ := pathCountAssuming(un.Blocks[0], isKeep, nil, nil)
+				if mn < 1 {
+					okU, why = false, "the slice the input was copied into is not stored into the decoded value on every path: the caller's value stays what it was"
+				}
+			}
+			// and the count reported is that of the copy
+			for _, r := range returnsOf(un) {
+				if len(r.Results) < 1 || !instrDominates(call, r) {
+					continue
+				}
+				if stripAllConv(r.Results[0]) != ssa.Value(call) {
+					okU, why = false, "the consumed length is not the number of bytes copied"
+				}
 			}
 		})
 		c.Decide(okU, rule, tn+" byte-copy decoder takes the whole input", p.Pos(un.Pos()), "copy(dst, data) with len(dst) >= len(data)", why)
